@@ -6,7 +6,25 @@ every implementation trace.
 A case is {'proto', 'max', 'members': [payload..], 'order': [member index..], 'errs': [member
 index..]}: the batch `members` is received, then the request members deliver their results in
 `order` (members listed in `errs` deliver an RPCError instead of a value).  A single request /
-notification is {'proto', 'max', 'single': payload, 'err': bool}."""
+notification is {'proto', 'max', 'single': payload, 'err': bool}.
+
+Layers: connection (`receive_message` + `send_result`, this file), serving session with gated
+handlers (harness/c02_session.py), serving session on the virtual clock with a processing
+timeout and a send buffer that fills up and drains (harness/c02_backpressure.py).
+
+What the oracle takes from where.  From the property text: the counting clauses (exactly one
+response / batch response, only when every member has its result, one entry per request member
+matched by id, one error entry per invalid member, nothing for notifications), "the response to a
+request whose handler delivered carries that result unless it is too large", and the size clause.
+The size clause is read at both levels at which it is satisfiable (see props/C02.json
+level_note): (i) a response *object* - the thing that has an id - larger than the maximum is
+replaced by an error object with the same id; (ii) a batch response in which nothing was replaced
+and which has no error entries for invalid members is not larger than the maximum, and more
+generally the results *kept* in a batch response, taken as a batch of their own, are not.  The
+bytes between / around batch entries are not fixed by the text: they are measured from the code
+(facts `join_sep_len`, `bracket_len`), never hard-coded.  The member classifier is the request
+grammar of JSON-RPC 1.0 / 2.0 / Loose *as this library reads it* - in particular a member with
+`"id": null` is a notification (JSON-RPC 2.0 itself would call it a request with a null id)."""
 import itertools
 import json
 import logging
@@ -15,7 +33,7 @@ from multiprocessing import Pool
 
 from harness import vloop
 from harness.base import Results, corpus_lines
-from harness.c01 import PROTO_CLASS, id_token, py_detect, value, value_token
+from harness.c02_util import PROTO_CLASS, id_token, py_detect, value, value_token
 from tools.facts.common import fresh_import
 
 
@@ -61,8 +79,8 @@ def member_of_token(n):
 
 # ------------------------------------------------------------------ decoding what was sent
 def decode_entry(e):
-    """('r', member, id) for a handler-supplied result, ('E', id) for any other error entry,
-    ('?', ..) for anything else"""
+    """('r', member, id) for a handler-supplied result, ('E', id, code) for any other error
+    entry (the code only for diagnostics), ('?', ..) for anything else"""
     if not isinstance(e, dict) or 'id' not in e:
         return ('?', repr(e)[:40])
     rid = e['id']
@@ -71,7 +89,7 @@ def decode_entry(e):
         if isinstance(err, dict) and isinstance(err.get('code'), int) \
                 and err.get('message') == f'm{err["code"]}' and member_of_token(err['code']) is not None:
             return ('r', member_of_token(err['code']), rid)
-        return ('E', rid)
+        return ('E', rid, err.get('code') if isinstance(err, dict) else None)
     if 'result' in e:
         t = value_token(e['result'])
         if t is not None and member_of_token(t) is not None:
@@ -79,11 +97,11 @@ def decode_entry(e):
     return ('?', repr(e)[:40])
 
 
-def show_entries(entries):
+def show_entries(entries, off=0):
     out = []
     for d in entries:
         if d[0] == 'r':
-            out.append(f'r{d[1]}@{id_token(d[2])}')
+            out.append(f'r{d[1] - off}@{id_token(d[2])}')
         elif d[0] == 'E':
             out.append(f'E@{id_token(d[1])}')
         else:
@@ -98,28 +116,26 @@ def normalise_model(tok):
         items = [x for x in body[:-1].split(',') if x]
         items = [('E@' + x.split('@', 1)[1]) if x[0] in 'eb' else x for x in items]
         return pre + '[' + ','.join(items) + ']'
-    if tok.startswith('b@'):
+    if tok.startswith('b@') or tok.startswith('e@'):
         return 'E@' + tok[2:]
     return tok
 
 
 # ------------------------------------------------------------------ implementation side
-def run_impl_batch(jr, case):
-    """returns dict(raised=entries|None, items_ok, calls=[entries|None..], lens=[..], exc)"""
-    proto = getattr(jr, PROTO_CLASS[case['proto']])
-    conn = jr.JSONRPCConnection(proto)
-    conn.max_response_size = case['max']
+def recv_batch(jr, conn, case):
+    """receive the batch on `conn`; returns (rec, deliver) where deliver(m) hands member m's
+    result to its `send_result` (False: stop)"""
     raw = json.dumps(case['members']).encode()
-    rec = {'raised': None, 'calls': [], 'lens': [], 'exc': None, 'items': None}
+    rec = {'raised': None, 'calls': [], 'lens': [], 'exc': None, 'items': None, 'rawlens': []}
     try:
         items = conn.receive_message(raw)
     except jr.ProtocolError as e:
         msg = e.error_message
         rec['raised'] = [decode_entry(x) for x in json.loads(msg)] if msg else 'no-message'
-        return rec
+        return rec, None
     except Exception as e:   # noqa
         rec['exc'] = type(e).__name__
-        return rec
+        return rec, None
     # lengths are measured with the protocol in force (AutoDetect: what the harness detects)
     inforce = getattr(jr, PROTO_CLASS[case.get('inforce', case['proto'])])
     rec['items'] = ['r' if isinstance(it, jr.Request) else 'n' if isinstance(it, jr.Notification)
@@ -127,29 +143,78 @@ def run_impl_batch(jr, case):
     kinds = [classify_member(case.get('inforce', case['proto']), p) for p in case['members']]
     valid = [i for i, k in enumerate(kinds) if k[0] != 'invalid']
     by_member = dict(zip(valid, items))
-    for m in case['order']:
+    off = case.get('moff', 0)
+
+    def deliver(m):
         it = by_member.get(m)
-        result, _tok = result_for(jr, m, m in case.get('errs', ()))
+        result, _tok = result_for(jr, m + off, m in case.get('errs', ()))
         if m in case.get('unenc', ()):
             # a first attempt with a result that cannot be encoded: must raise ProtocolError,
             # emit nothing and leave the batch as it was (C03's repair of F9 relies on it)
             try:
                 leaked = it.send_result({1, 2})
                 rec['exc'] = 'UnencodableAccepted' if leaked is None else 'UnencodableEmitted'
-                break
+                return False
             except jr.ProtocolError:
                 pass
             except Exception as e:   # noqa
                 rec['exc'] = type(e).__name__
-                break
+                return False
         try:
             rec['lens'].append(len(inforce.response_message(result, kinds[m][1])))
             out = it.send_result(result)
         except Exception as e:   # noqa
             rec['exc'] = type(e).__name__
-            break
+            return False
         rec['calls'].append(None if out is None else [decode_entry(x) for x in json.loads(out)])
+        rec['rawlens'].append(None if out is None else len(out))
+        return True
+    return rec, deliver
+
+
+def run_impl_batch(jr, case):
+    """returns dict(raised=entries|None, items_ok, calls=[entries|None..], lens=[..], exc)"""
+    proto = getattr(jr, PROTO_CLASS[case['proto']])
+    conn = jr.JSONRPCConnection(proto)
+    conn.max_response_size = case['max']
+    rec, deliver = recv_batch(jr, conn, case)
+    if deliver:
+        for m in case['order']:
+            if not deliver(m):
+                break
     return rec
+
+
+def run_impl_multi(jr, case):
+    """several batches in flight on ONE connection: all are received first, then their members
+    deliver in the interleaving `case['interleave']` (which batch delivers its next member);
+    returns one record per batch"""
+    proto = getattr(jr, PROTO_CLASS[case['proto']])
+    conn = jr.JSONRPCConnection(proto)
+    conn.max_response_size = case['max']
+    subs = sub_cases(case)
+    got = [recv_batch(jr, conn, sc) for sc in subs]
+    nxt = [0] * len(subs)
+    dead = set()
+    for b in case['interleave']:
+        rec, deliver = got[b]
+        if deliver is None or b in dead or nxt[b] >= len(subs[b]['order']):
+            continue
+        if not deliver(subs[b]['order'][nxt[b]]):
+            dead.add(b)
+        nxt[b] += 1
+    return [g[0] for g in got]
+
+
+def sub_cases(case):
+    """the batches of a multi case as ordinary cases; member numbers (result tokens) continue
+    across the batches so that an entry that strays into the wrong batch is recognised"""
+    out, off = [], 0
+    for sub in case['multi']:
+        out.append(dict(sub, proto=case['proto'], max=case['max'], moff=off,
+                        inforce=case.get('inforce', case['proto'])))
+        off += len(sub['members'])
+    return out
 
 
 def run_impl_single(jr, case):
@@ -178,35 +243,66 @@ def run_impl_single(jr, case):
 
 
 # ------------------------------------------------------------------ the property oracle
+# bytes between two entries / around a batch, and what the code adds per entry to its running
+# size: measured from the code under test (tools/facts/c02.py), set by `_init`
+WIRE = {'sep': 2, 'br': 2, 'inc': 2}
+
+
+def set_wire(facts):
+    """take the wire parameters from the regenerated facts (never hard-coded in a clause)"""
+    if not isinstance(facts, dict):
+        return
+    for k, f in (('sep', 'join_sep_len'), ('br', 'bracket_len'), ('inc', 'size_increment')):
+        v = facts.get(f)
+        if isinstance(v, int) and not isinstance(v, bool) and v >= 0:
+            WIRE[k] = v
+
+
+def batch_len(lens):
+    """encoded length of a batch whose entries have the given lengths"""
+    return sum(lens) + WIRE['sep'] * (len(lens) - 1) + WIRE['br']
+
+
 def batch_oracle(case, rec):
     """None or (key, why).  From the property text: exactly one batch response, only when every
     request member has its result, one entry per request member (matched by id) plus one error
-    entry per invalid member; only notifications -> nothing; a response larger than the maximum
-    is replaced by an error with the same id."""
+    entry per invalid member; only notifications -> nothing; the entry of a member whose handler
+    delivered is that result unless too large; size clause at entry and at batch level (module
+    docstring).  `case['busy']`: members whose handler did not deliver before the processing
+    timeout - any well-formed entry under the member's id is their one response.
+    `rec['sent']`, if present, lists every batch message that left: (number of request members
+    that had their result when it was written - 1, entries, length in bytes)."""
     proto = case.get('inforce', case['proto'])
     kinds = [classify_member(proto, p) for p in case['members']]
     reqs = [i for i, k in enumerate(kinds) if k[0] == 'req']
     invalid = [i for i, k in enumerate(kinds) if k[0] == 'invalid']
     notifs = [i for i, k in enumerate(kinds) if k[0] == 'notif']
+    busy = set(case.get('busy', ()))
+    off = case.get('moff', 0)
     if rec['exc']:
         return 'c02:unexpected-exception:' + rec['exc'], 'escaped receive_message / send_result'
-    sent = []     # (when, entries)
-    if rec['raised'] is not None:
-        if rec['raised'] == 'no-message':
-            return 'c02:error-without-reply', 'ProtocolError without a message for the peer'
-        sent.append(('receive', rec['raised']))
-    for j, out in enumerate(rec['calls']):
-        if out is not None:
-            sent.append((j, out))
+    if 'sent' in rec:
+        sent = list(rec['sent'])
+    else:
+        sent = []     # (when, entries, bytes)
+        if rec['raised'] is not None:
+            if rec['raised'] == 'no-message':
+                return 'c02:error-without-reply', 'ProtocolError without a message for the peer'
+            sent.append(('receive', rec['raised'], None))
+        rawlens = rec.get('rawlens') or [None] * len(rec['calls'])
+        for j, out in enumerate(rec['calls']):
+            if out is not None:
+                sent.append((j, out, rawlens[j]))
+    extra = rec.get('extra', 0)
     want = 1 if (reqs or invalid) else 0
-    if len(sent) != want:
-        if not reqs and invalid and notifs and not sent:
+    if len(sent) + extra != want:
+        if not reqs and invalid and notifs and not sent and not extra:
             return ('c02:notif-invalid-no-reply',
                     f'batch of notifications and {len(invalid)} invalid member(s): no response at all')
-        return 'c02:reply-count', f'{len(sent)} batch responses sent, {want} called for'
+        return 'c02:reply-count', f'{len(sent) + extra} batch responses sent, {want} called for'
     if not want:
         return None
-    when, entries = sent[0]
+    when, entries, rawlen = sent[0]
     if reqs and when != len(reqs) - 1:
         return 'c02:reply-too-early', f'batch response sent at {when}, before every member had its result'
     if any(e[0] == '?' for e in entries):
@@ -215,33 +311,49 @@ def batch_oracle(case, rec):
         return 'c02:entry-count', f'{len(entries)} entries for {len(reqs)} requests + {len(invalid)} invalid'
     # one entry per request member, matched by id; the rest are the invalid members' errors
     pool = list(entries)
-    real_lens = []
-    for pos, m in enumerate(case['order']):
+    real, replaced = [], []
+    lens = dict(zip(case['order'], rec['lens']))
+    for m in case['order']:
         rid = kinds[m][1]
-        hit = [e for e in pool if e[0] == 'r' and e[1] == m]
+        hit = [e for e in pool if e[0] == 'r' and e[1] == m + off]
         if hit:
             e = hit[0]
             if not same_json(e[2], rid):
                 return 'c02:wrong-id', f'member {m} (id {rid!r}) answered under id {e[2]!r}'
-            real_lens.append(rec['lens'][pos])
+            real.append(m)
         else:
             hit = [e for e in pool if e[0] == 'E' and same_json(e[1], rid)]
             if not hit:
                 return 'c02:missing-entry', f'no entry under id {rid!r} for member {m}'
             e = hit[0]
-            if case['max'] == 0:
-                return 'c02:replaced-without-limit', f'member {m} got an error entry although max_response_size is 0'
+            if m not in busy:
+                if case['max'] == 0:
+                    return ('c02:replaced-without-limit',
+                            f'member {m} delivered its result but got an error entry (code '
+                            f'{e[2] if len(e) > 2 else "?"}) although max_response_size is 0')
+                replaced.append(m)
         pool.remove(e)
     if any(e[0] != 'E' for e in pool) or len(pool) != len(invalid):
         return 'c02:invalid-member-errors', f'left-over entries {pool} for {len(invalid)} invalid members'
     mx = case['max']
     if mx > 0:
-        total = sum(l + 2 for l in rec['lens'])
-        nreal = len(real_lens)
-        if total <= mx and nreal != len(reqs) and not invalid:
-            return 'c02:replaced-though-within-limit', f'results need {total} <= {mx} bytes but entries were replaced'
-        if sum(l + 2 for l in real_lens) > mx:
-            return 'c02:oversize-not-replaced', f'real results kept need {sum(l + 2 for l in real_lens)} > {mx} bytes'
+        # (i) a response object larger than the maximum is replaced
+        for m in real:
+            if lens[m] > mx:
+                return ('c02:oversize-not-replaced',
+                        f'the response to member {m} is {lens[m]} > {mx} bytes but was sent')
+        # (ii) the results kept, as a batch of their own, are within the maximum
+        if real and batch_len([lens[m] for m in real]) > mx:
+            return ('c02:oversize-not-replaced',
+                    f'real results kept need {batch_len([lens[m] for m in real])} > {mx} bytes')
+        # (ii) nothing replaced, no invalid member: the bytes that left are within the maximum
+        if not invalid and not busy and len(real) == len(reqs) and rawlen is not None and rawlen > mx:
+            return 'c02:batch-over-limit', f'batch response of {rawlen} > {mx} bytes, nothing replaced'
+        # a batch that fits as a whole has nothing replaced
+        if not invalid and not busy and replaced and batch_len([lens[m] for m in case['order']]) <= mx:
+            return ('c02:replaced-though-within-limit',
+                    f'the whole batch needs {batch_len([lens[m] for m in case["order"]])} <= {mx} '
+                    f'bytes but entries of members {replaced} were replaced')
     return None
 
 
@@ -252,22 +364,28 @@ def same_json(a, b):
 
 
 def single_oracle(case, rec):
+    """None or (key, why): exactly one response under the request's id (the handler's result
+    unless too large; any response under the id if the handler did not deliver in time,
+    `case['busy']`), nothing for a notification.  What an *invalid* single message gets is not
+    in the property text: compared with the model only."""
     proto = case.get('inforce', case['proto'])
     kind = classify_member(proto, case['single'])
     if rec['exc']:
         return 'c02:unexpected-exception:' + rec['exc'], 'escaped'
     if kind[0] == 'invalid':
-        if rec['raised'] in (None, 'no-message') or rec['raised'][0] != 'E':
-            return 'c02:invalid-single-no-error', f'invalid request not answered by an error: {rec}'
         return None
     if rec['raised'] is not None:
+        if kind[0] == 'notif':
+            return 'c02:notification-answered', f'{rec["raised"]} emitted for a notification'
         return 'c02:valid-request-rejected', f'{rec["raised"]}'
     if kind[0] == 'notif':
-        if rec['items'] != ['n'] or rec['reply'] is not None:
+        if rec['items'] != ['n'] or rec['reply'] is not None or rec.get('extra'):
             return 'c02:notification-answered', f'{rec}'
         return None
     if rec['items'] != ['r'] or rec['reply'] is None:
         return 'c02:request-not-answered', f'{rec}'
+    if rec.get('extra'):
+        return 'c02:reply-count', f'{1 + rec["extra"]} responses written for one request'
     rep = rec['reply']
     rid = kind[1]
     over = case['max'] > 0 and rec['len'] > case['max']
@@ -279,8 +397,14 @@ def single_oracle(case, rec):
     elif rep[0] == 'E':
         if not same_json(rep[1], rid):
             return 'c02:wrong-id', f'error under {rep[1]!r}, request id {rid!r}'
-        if not over:
-            return 'c02:replaced-though-within-limit', f'{rec["len"]} bytes, limit {case["max"]}'
+        if not over and not case.get('busy'):
+            code = rep[2] if len(rep) > 2 else '?'
+            if case['max'] == 0:
+                return ('c02:replaced-without-limit',
+                        f'the handler delivered its result but the response is an error (code '
+                        f'{code}) although max_response_size is 0')
+            return ('c02:replaced-though-within-limit',
+                    f'{rec["len"]} bytes, limit {case["max"]}, answered by an error (code {code})')
     else:
         return 'c02:malformed-entry', f'{rep}'
     return None
@@ -291,9 +415,8 @@ def model_line(case, rec):
     proto = case.get('inforce', case['proto'])
     if 'single' in case:
         kind = classify_member(proto, case['single'])
-        if kind[0] != 'req':
-            return None
-        return f'S {case["max"]} {rec["len"]} {id_token(kind[1])}'
+        tok = 'N' if kind[0] == 'notif' else f'{"R" if kind[0] == "req" else "X"}:{id_token(kind[1])}'
+        return f'S {case["max"]} {rec["len"]} {tok}'
     toks = []
     for p in case['members']:
         k = classify_member(proto, p)
@@ -307,15 +430,28 @@ def impl_text(case, rec):
     if rec.get('exc'):
         return '!' + rec['exc']
     if 'single' in case:
+        if rec['raised'] is not None:
+            r = rec['raised']
+            return 'E?' if r == 'no-message' else f'E@{id_token(r[1])}' if r[0] == 'E' else '?'
         rep = rec['reply']
         if rep is None:
             return 'none'
         return f'r@{id_token(rep[2])}' if rep[0] == 'r' else f'E@{id_token(rep[1])}' if rep[0] == 'E' else '?'
+    off = case.get('moff', 0)
     if rec['raised'] is not None:
-        return 'E' + show_entries(rec['raised']) if rec['raised'] != 'no-message' else 'E?'
+        return 'E' + show_entries(rec['raised'], off) if rec['raised'] != 'no-message' else 'E?'
     if not rec['calls']:
         return '.'
-    return ' '.join('-' if c is None else show_entries(c) for c in rec['calls'])
+    return ' '.join('-' if c is None else show_entries(c, off) for c in rec['calls'])
+
+
+def is_deep(ctx):
+    """explore at thorough depth: thorough tier, or the fingerprints of the modelled functions
+    drifted / an obligation broke.  (lib/vcheck.py re-runs a drifted quick check at depth only
+    when the first pass recorded no violation at all - the known finding F8 is always recorded,
+    so the harness looks at the reasons itself; scopes still stop growing once something
+    unlisted failed.)"""
+    return bool(ctx.deep or getattr(ctx, 'deep_reasons', None))
 
 
 def unlisted_failure(ctx, res):
@@ -332,13 +468,14 @@ def unlisted_failure(ctx, res):
 _jr = None
 
 
-def _init(repo):
+def _init(repo, facts=None):
     global _jr
     _jr = fresh_import(repo, 'aiorpcx.jsonrpc')
+    set_wire(facts)
 
 
 def _prepare(case):
-    if case['proto'] == 'auto' and 'inforce' not in case:
+    if case['proto'] == 'auto' and 'inforce' not in case and 'multi' not in case:
         case['inforce'] = py_detect(case['members'] if 'members' in case else case['single'])
     return case
 
@@ -348,6 +485,11 @@ def _run_batch(cases):
         out = []
         for c in cases:
             _prepare(c)
+            if 'multi' in c:
+                recs = run_impl_multi(_jr, c)
+                out.append([(impl_text(sc, r), batch_oracle(sc, r), model_line(sc, r))
+                            for sc, r in zip(sub_cases(c), recs)])
+                continue
             if 'single' in c:
                 rec = run_impl_single(_jr, c)
                 verdict = single_oracle(c, rec)
@@ -362,12 +504,12 @@ def _run_batch(cases):
 def run_impl(ctx, cases):
     n = len(cases)
     if n < 8000:
-        _init(ctx.repo)
+        _init(ctx.repo, ctx.facts)
         return _run_batch(cases)
     nproc = min(12, os.cpu_count() or 1)
     size = max(2000, n // (nproc * 4))
     jobs = [cases[i:i + size] for i in range(0, n, size)]
-    with Pool(nproc, initializer=_init, initargs=(ctx.repo,)) as pool:
+    with Pool(nproc, initializer=_init, initargs=(ctx.repo, ctx.facts)) as pool:
         parts = pool.map(_run_batch, jobs)
     return [r for p in parts for r in p]
 
@@ -376,17 +518,31 @@ def evaluate(ctx, cases, res, scope):
     if not cases:
         return
     outs = run_impl(ctx, cases)
-    idx = [i for i, o in enumerate(outs) if o[2] is not None]
-    model = ctx.model([outs[i][2] for i in idx])
+    # one (case, sub-index, got, verdict, line) per judged batch / single
+    flat = []
+    for c, o in zip(cases, outs):
+        if isinstance(o, list):
+            flat += [(c, k, *t) for k, t in enumerate(o)]
+        else:
+            flat.append((c, None, *o))
+    idx = [i for i, f in enumerate(flat) if f[4] is not None]
+    model = ctx.model([flat[i][4] for i in idx])
     mod = dict(zip(idx, model)) if model is not None else {}
-    for i, (c, (got, verdict, line)) in enumerate(zip(cases, outs)):
+    for i, (c, sub, got, verdict, line) in enumerate(flat):
         if verdict is not None:
-            res.violation(verdict[0], c, verdict[1], impl=got, model_line=line)
+            key = verdict[0] if sub is None or verdict[0].startswith('c02:notif-invalid') \
+                else verdict[0] + '@two-batches'
+            why = verdict[1] if sub is None else f'batch {sub} of the connection: {verdict[1]}'
+            res.violation(key, c, why, impl=got, model_line=line)
         if i in mod:
             want = ' '.join(normalise_model(t) for t in mod[i].split(' '))
             if want != got:
                 res.disagreement(c, got, want, model_line=line)
-        if 'members' in c:
+        if sub is not None:
+            res.count('batches_in_flight_together')
+            if sub == 0:
+                res.nontrivial('multi|' + '|'.join(f[4] for f in flat[i:i + len(c['multi'])]))
+        elif 'members' in c:
             res.count('batch_cases')
             res.count('batch_members_total', len(c['members']))
             res.count('cases_with_limit', c['max'] > 0)
@@ -396,7 +552,8 @@ def evaluate(ctx, cases, res, scope):
                 res.nontrivial(line + '|' + c['proto'])
         else:
             res.count('single_cases')
-        res.count('cases_' + c['proto'])
+        if sub in (None, 0):
+            res.count('cases_' + c['proto'])
     res['evaluations'] += len(cases)
     res['scopes'][scope] = res['scopes'].get(scope, 0) + len(cases)
 
@@ -445,9 +602,11 @@ def limits_for(jr, proto_name, members, order, errs, rich):
     for m in order:
         result, _ = result_for(jr, m, m in errs)
         lens.append(len(proto.response_message(result, members[m].get('id'))))
-    first = lens[0] + 2
-    total = sum(l + 2 for l in lens)
-    cands = [first, first - 1, total, total - 1] if rich else [first - 1, total - 1 if len(lens) > 1 else first]
+    inc = WIRE['inc']
+    first = lens[0] + inc
+    total = sum(l + inc for l in lens)
+    cands = [first, first - 1, total, total - 1, lens[0] - 1] if rich else \
+        [first - 1, total - 1 if len(lens) > 1 else first]
     seen = set()
     for c in cands:
         if c > 0 and c not in seen:
@@ -476,6 +635,66 @@ def exhaustive_cases(jr, maxlen, protos, rich, thin=1):
                                'errs': errs}
 
 
+def unenc_cases(jr, maxlen):
+    """every small composition x completion order, with each request member in turn making a
+    first attempt with a result that cannot be encoded (the batch must be left as it was)"""
+    for c in exhaustive_cases(jr, maxlen, ('v2',), False):
+        if c['max'] != 0 and len(c['order']) > 2:
+            continue
+        for u in c['order']:
+            yield dict(c, unenc=[u])
+
+
+def multi_cases(jr, rng, n_random):
+    """two request batches in flight on one connection (the closure state of the one must not
+    leak into the other): every pair of compositions up to 2 members from {request id 7, request
+    id "a", notification, invalid} x every interleaving of their deliveries, x a limit; plus
+    seeded random pairs of larger batches"""
+    def mk(style, kind, m):
+        p = {'method': 'm', 'params': [m]}
+        if style == 'v2':
+            p['jsonrpc'] = '2.0'
+        if kind == 'r7':
+            p['id'] = 7
+        elif kind == 'ra':
+            p['id'] = 'a'
+        elif kind == 'x':
+            p = dict(p, id=3, method=1)
+        return p
+    kinds = ('r7', 'ra', 'n', 'x')
+    comps = [c for n in (1, 2) for c in itertools.product(kinds, repeat=n)]
+    for proto in ('v2', 'loose'):
+        style = proto
+        for a in comps:
+            for b in comps:
+                subs = []
+                for comp in (a, b):
+                    members = [mk(style, k, m) for m, k in enumerate(comp)]
+                    reqs = [m for m, k in enumerate(comp) if k[0] == 'r']
+                    subs.append({'members': members, 'order': reqs, 'errs': []})
+                na, nb = len(subs[0]['order']), len(subs[1]['order'])
+                if na + nb == 0:
+                    inter = [()]
+                else:
+                    inter = sorted(set(itertools.permutations([0] * na + [1] * nb)))
+                for il in inter:
+                    for rev in ((False, False), (True, False)) if na > 1 else ((False, False),):
+                        ss = [dict(s, order=list(reversed(s['order'])) if r else s['order'])
+                              for s, r in zip(subs, rev)]
+                        for mx in (0, 50):
+                            yield {'proto': proto, 'max': mx, 'multi': ss, 'interleave': list(il)}
+    for _ in range(n_random):
+        a, b = random_case(rng, jr), random_case(rng, jr)
+        proto = rng.choice(['v2', 'loose'])
+        if a['proto'] == 'auto' or b['proto'] == 'auto' or a['proto'] != b['proto']:
+            continue
+        subs = [{k: c[k] for k in ('members', 'order', 'errs', 'unenc')} for c in (a, b)]
+        il = [0] * len(a['order']) + [1] * len(b['order'])
+        rng.shuffle(il)
+        yield {'proto': a['proto'], 'max': rng.choice([0, a['max'], b['max']]), 'multi': subs,
+               'interleave': il}
+
+
 def single_cases(jr):
     out = []
     for proto in ('v1', 'v2', 'loose', 'auto'):
@@ -498,7 +717,12 @@ def single_cases(jr):
                     ln = 60
                 for mx in (0, ln, ln - 1, 1, ln + 1):
                     out.append({'proto': proto, 'max': mx, 'single': p, 'err': err})
-        out.append({'proto': proto, 'max': 0, 'single': {'jsonrpc': '2.0', 'method': 1, 'id': 4}, 'err': False})
+        # invalid single messages (what they get is compared with the model, not judged)
+        for bad in ({'jsonrpc': '2.0', 'method': 1, 'id': 4}, {'jsonrpc': '2.0', 'method': 'm', 'params': 'oops', 'id': 5},
+                    {'jsonrpc': '2.0', 'method': 'm', 'id': [1]}, {'jsonrpc': '2.0', 'method': None}, 5, 'x'):
+            if proto == 'auto' and not isinstance(bad, dict):
+                continue
+            out.append({'proto': proto, 'max': 0, 'single': bad, 'err': False})
     return out
 
 
@@ -536,8 +760,9 @@ def random_case(rng, jr):
     unenc = [m for m in reqs if rng.random() < 0.1]
     lim = list(limits_for(jr, proto, [p if isinstance(p, dict) else {} for p in members], order, errs, True))
     mx = rng.choice(lim + [rng.randint(1, 400)])
+    nerrs = [m for m, k in enumerate(kinds) if k[0] == 'notif' and rng.random() < 0.3]
     return {'proto': proto, 'max': mx, 'members': members, 'order': order, 'errs': errs,
-            'unenc': unenc}
+            'unenc': unenc, 'nerrs': nerrs}
 
 
 def parse_corpus_line(line):
@@ -550,19 +775,30 @@ RULE = ('case = (protocol, max_response_size, batch composition, completion orde
         'with / without recoverable id} x every completion order of the request members x limits at '
         'the decision points (0, first entry fits exactly / by one byte not, whole batch fits exactly / '
         'not), for v2, Loose and AutoDetect; single requests/notifications on all four protocols with '
-        'every id type x limits at the boundary; seeded random batches up to 8 members; a serving '
-        'RPCSession on a fake transport for what is written; non-trivial = at least two request '
+        'every id type x limits at the boundary; a first attempt with an unencodable result by each request member; two '
+        'batches in flight on one connection x every interleaving of their deliveries; seeded random batches up to 8 '
+        'members; a serving '
+        'RPCSession on a fake transport for what is written (gated handlers; and on the virtual clock: handler '
+        'durations x processing timeout x send-buffer pause/resume instants); non-trivial = at least two request '
         'members; distinct = distinct (model line, protocol)')
 
 
 def run(ctx):
     res = Results()
     rng = ctx.rng
-    _init(ctx.repo)
+    _init(ctx.repo, ctx.facts)
     jr = _jr
     cc = [parse_corpus_line(l) for l in corpus_lines(ctx.verif, 'C02')]
-    evaluate(ctx, cc, res, 'corpus')
+    evaluate(ctx, [c for c in cc if 'layer' not in c], res, 'corpus')
+    from harness import c02_session, c02_backpressure
+    for c in cc:
+        if c.get('layer') == 'bp':
+            c02_backpressure.replay(ctx, c, res)
+        elif c.get('layer') == 'session':
+            c02_session.replay(ctx, c, res)
     evaluate(ctx, single_cases(jr), res, 'singles')
+    evaluate(ctx, list(unenc_cases(jr, 2 if not is_deep(ctx) else 3)), res, 'exhaustive_unencodable_attempt')
+    evaluate(ctx, list(multi_cases(jr, rng, 300 if not is_deep(ctx) else 3000)), res, 'two_batches_in_flight')
     done = 0
     for n, protos, rich in ((3, ('v2', 'loose', 'auto'), True), (4, ('v2', 'loose'), False)):
         if unlisted_failure(ctx, res) and n > 3:
@@ -573,24 +809,24 @@ def run(ctx):
     def depth():
         if unlisted_failure(ctx, res):
             return 0
-        return 2 if ctx.tier == 'thorough' else 1 if ctx.deep else 0
+        return 2 if ctx.tier == 'thorough' else 1 if is_deep(ctx) else 0
     if depth() >= 1:
-        thin = 1 if depth() == 2 else 5
+        thin = 1 if depth() == 2 else 8
         ex = [c for c in exhaustive_cases(jr, 5, ('v2',), False, thin=thin) if len(c['members']) == 5]
-        evaluate(ctx, ex, res, 'exhaustive_len_5' + ('' if thin == 1 else '_every_5th'))
+        evaluate(ctx, ex, res, 'exhaustive_len_5' + ('' if thin == 1 else '_every_8th'))
         if thin == 1:
             done = 5
     if depth() >= 2:
         ex = [c for c in exhaustive_cases(jr, 5, ('loose',), False, thin=2) if len(c['members']) == 5]
         evaluate(ctx, ex, res, 'exhaustive_len_5_loose_every_2nd')
-    ngen = (8000, 30000, 300000)[depth()]
+    ngen = (8000, 20000, 300000)[depth()]
     gen = [random_case(rng, jr) for _ in range(ngen)]
     evaluate(ctx, gen, res, 'generated')
     for c in gen[:2]:
         res.sample({'case': c})
     res['scopes']['exhaustive_max_len'] = done
-    from harness import c02_session
     c02_session.run(ctx, res)
+    c02_backpressure.run(ctx, res)
     return res.finish(RULE, exhaustive=not unlisted_failure(ctx, res))
 
 
@@ -601,6 +837,9 @@ def replay(ctx, case):
     if case.get('layer') == 'session':
         from harness import c02_session
         c02_session.replay(ctx, case, res)
+    elif case.get('layer') == 'bp':
+        from harness import c02_backpressure
+        c02_backpressure.replay(ctx, case, res)
     else:
         evaluate(ctx, [case], res, 'replay')
     res.sample(case)
